@@ -713,7 +713,7 @@ func c32PlanGrains(d c32Dispatch) {
 		"grains":  fmt.Sprintf("multisets of size 0..%d over {lazy, eager, relocation-disabled, system-named}", maxGrains),
 	})
 	defer e.Done()
-	bud := c32Share(e, 0.05)
+	bud := c32Share(e, 0.03)
 	for nt := 1; nt <= 4; nt++ {
 		c32Multisets(len(c32GrainKinds), maxGrains, func(sel []int) {
 			if !bud.mine() {
@@ -749,11 +749,17 @@ func c32PlanGrains(d c32Dispatch) {
 			if sig, detail := c32CheckGrains(nt, kinds, perTarget); sig != "" {
 				e.Fail(sig, input, "%s; shares=%v", detail, perTarget)
 			}
-			sizes := make([]int, 0, len(perTarget))
-			for _, l := range perTarget {
-				sizes = append(sizes, len(l))
+			// observation: the raw share sizes (they depend on counts only; which grain sits in which share
+			// depends on Go's map iteration order and is deliberately left out)
+			sizes := []int{len(leaderShare)}
+			for i := 1; i < len(peerShares); i++ {
+				sizes = append(sizes, len(peerShares[i]))
 			}
-			e.Case(input, fmt.Sprintf("relocatable=%d share-sizes=%v", relocatable, sizes), 2, relocatable >= 2 && nt >= 2)
+			handled := 0
+			for _, l := range perTarget {
+				handled += len(l)
+			}
+			e.Case(input, fmt.Sprintf("relocatable=%d handled=%d share-sizes=%v", relocatable, handled, sizes), 2, relocatable >= 2 && nt >= 2)
 		})
 	}
 }
@@ -774,7 +780,7 @@ func c32Redistribute(d c32Dispatch) {
 		"unsent":    fmt.Sprintf("ordered actor lists of length 0..%d (one less for 2 survivors) over %d kinds, 0..2 lazy grains", maxActors, len(c32RedistKinds)),
 	})
 	defer e.Done()
-	bud := c32Share(e, 0.30)
+	bud := c32Share(e, 0.20)
 	for ns := 0; ns <= 2; ns++ {
 		roleIdx := make([]int, ns+1) // [0] = leader
 		for {
@@ -929,7 +935,7 @@ func c32Batching(t *testing.T) {
 		"batch_size": defaultRelocationBatchSize,
 	})
 	defer e.Done()
-	bud := c32Share(e, 0.10)
+	bud := c32Share(e, 0.06)
 	maxA, maxG := sizes[len(sizes)-1], gsizes[len(gsizes)-1]
 	actors := make([]*internalpb.Actor, maxA)
 	for i := range actors {
@@ -1058,14 +1064,14 @@ func c32Relocate(t *testing.T) {
 	maxPeers := 2
 	maxActors := vsched.Pick(2, 3)
 	loadRadix := vsched.Pick(2, 3)
-	gsets := vsched.Pick(3, len(c32E2EGrainSets))
+	gsets := vsched.Pick(2, len(c32E2EGrainSets))
 	e := vsched.NewEnum("relocate", map[string]any{
-		"peers": "0..2", "role_sets": "{} or {r1} for the leader and every peer", "base_loads": fmt.Sprintf("0..%d registry records per target", loadRadix-1),
+		"peers": "0..2", "role_sets": "{} or {r1} for the leader and every peer", "base_loads": fmt.Sprintf("0..%d registry records per target (quick tier, 2 peers: last peer 0)", loadRadix-1),
 		"actors": fmt.Sprintf("multisets of size 0..%d over %d kinds", maxActors, len(c32E2EKinds)), "grain_sets": gsets,
 		"what": "real handleNodeLeftEvent -> relocator -> relocationWorker.relocate -> (fake transport) -> real relocateBatchHandler, stale registry records, snapshot in the leader's store",
 	})
 	defer e.Done()
-	bud := c32Share(e, 0.60)
+	bud := c32Share(e, 0.75)
 	for n := 0; n <= maxPeers; n++ {
 		nt := n + 1
 		roleIdx := make([]int, nt)
@@ -1080,6 +1086,13 @@ func c32Relocate(t *testing.T) {
 						sel = append([]int(nil), sel...)
 						c32RelocateCase(t, e, roleIdx, loads, gsi, gset, sel)
 					})
+				}
+				if n == 2 && !vsched.Rep().Thorough() {
+					// quick tier: the last peer's current load stays 0 for the largest survivor set
+					if !c32Inc(loads[:2], loadRadix) {
+						break
+					}
+					continue
 				}
 				if !c32Inc(loads, loadRadix) {
 					break
@@ -1229,11 +1242,11 @@ func c32RelocateCase(t *testing.T, e *vsched.Enum, roleIdx, loads []int, gsi int
 	for _, l := range pl.perTarget {
 		nRun += len(l)
 	}
-	var gsz []int
+	gHandled := 0 // which grain sits in which share depends on the map order: only the total is observed
 	for _, l := range gper {
-		gsz = append(gsz, len(l))
+		gHandled += len(l)
 	}
-	obs := fmt.Sprintf("targets=%d running=%d reported=%v failed-events=%d grain-shares=%v roles=%s", nt, nRun, pl.unplaceable, failedEvents, gsz, c32RoleKey(targets, entries))
+	obs := fmt.Sprintf("targets=%d running=%d reported=%v failed-events=%d grains-handled=%d roles=%s", nt, nRun, pl.unplaceable, failedEvents, gHandled, c32RoleKey(targets, entries))
 	e.Case(input, obs, 1, len(sel) >= 2 && nt >= 2)
 }
 
